@@ -33,7 +33,7 @@ ASSUMPTIONS = [
     "under an injected inner-store fault the wrapped store may still answer from its cache; it must then give the model's answer",
     "live-object bound is measured with weak references after gc.collect() on objects unpickled by the local store",
 ]
-PROBES = ["fetch_before_store", "store_after_miss", "eviction", "none_blob_fetched_twice", "fault_served_from_cache",
+PROBES = ["stores_recreated_on_emptied_directories", "fetch_before_store", "store_after_miss", "eviction", "none_blob_fetched_twice", "fault_served_from_cache",
           "api_family", "bound_checked"]
 
 CAPS = [1, 2, 3, 10, sys.maxsize // 2]
@@ -80,6 +80,11 @@ def gen_case(streams, tier, avoid):
             ops.append(["paths", [rng.choice(paths)]])
         else:
             ops.append(["fault"])
+    if cfg.random() < 0.3:
+        # the stores are thrown away, their directories emptied, and new store objects (and a new cache of the same
+        # size) are created on the same locations: nothing of the old content may be answered
+        for _ in range(cfg.randint(1, 2)):
+            ops.insert(rng.randrange(len(ops) + 1), ["wipe"])
     return {
         "family": "lockstep",
         "inner": cfg.choice(["memory", "local"]),
@@ -128,12 +133,26 @@ def _run_lockstep(case, root):
 
     inner_spec = (lambda tag: {"kind": "memory"} if case["inner"] == "memory" else
                   {"kind": "local", "internal": f"{tag}/int", "data": f"{tag}/data"})
-    bare = make_store({"kind": "faulty", "inner": inner_spec("bare")}, root)
-    winner = make_store({"kind": "faulty", "inner": inner_spec("wrap")}, root)
     from dds._lru_store import LRUCacheStore
 
     cap = case["cap"]
-    wrapped = LRUCacheStore(winner, num_elem=cap)
+    has_faults = any(o[0] == "fault" for o in case["ops"])
+
+    class _Plain:
+        armed = False
+
+    def build():
+        """(bare, inner store of the wrapped stack, wrapped). Without fault operations the stores are used directly
+        (no FaultyStore in between), as dds.set_store builds them."""
+        if has_faults:
+            b_ = make_store({"kind": "faulty", "inner": inner_spec("bare")}, root)
+            w_ = make_store({"kind": "faulty", "inner": inner_spec("wrap")}, root)
+            return b_, w_, LRUCacheStore(w_, num_elem=cap), b_, w_
+        b_ = make_store(inner_spec("bare"), root)
+        w_ = make_store(inner_spec("wrap"), root)
+        return b_, w_, LRUCacheStore(w_, num_elem=cap), _Plain(), _Plain()
+
+    bare, winner, wrapped, bare_f, winner_f = build()
     vals = case["vals"]
     model_blobs = set()
     model_paths = {}
@@ -159,7 +178,24 @@ def _run_lockstep(case, root):
             log.append([step, "fault-armed"])
             akey.append("F")
             continue
-        bare.armed = winner.armed = fault_next
+        if kind == "wipe":
+            import shutil
+
+            del bare, winner, wrapped, bare_f, winner_f
+            gc.collect()
+            for tag in ("bare", "wrap"):
+                shutil.rmtree(os.path.join(root, tag), ignore_errors=True)
+            bare, winner, wrapped, bare_f, winner_f = build()
+            model_blobs.clear()
+            model_paths.clear()
+            fetched_once.clear()
+            fetched_absent.clear()
+            del lru[:]
+            probe("stores_recreated_on_emptied_directories")
+            log.append([step, "wipe"])
+            akey.append("W")
+            continue
+        bare_f.armed = winner_f.armed = fault_next
         faulted = fault_next
         fault_next = False
         if kind == "store":
@@ -229,7 +265,7 @@ def _run_lockstep(case, root):
             expect = ("ok", sorted((p, model_paths[p]) for p in ps)) if all(p in model_paths for p in ps) else None
         else:
             raise ValueError(op)
-        bare.armed = winner.armed = False
+        bare_f.armed = winner_f.armed = False
         if faulted:
             faults["inner_store_error"] = faults.get("inner_store_error", 0) + 1
         log.append([step, op, a, b, faulted])
